@@ -16,6 +16,12 @@ CLAIMED = {
             "Decides the necessary structure of 'one batch per partition in flight, retries to the front, sequence stamped "
             "once': mute/unmute pairing, drain guards, deque discipline, seq-once, outcome classification, retriable table, "
             "no expiry for idempotent producers, wrap interval. The broker-side log order under fault sequences is not decided."),
+    "C02": ("dominance of not-done guards, loop-carried reaching definitions, typestate path enumeration of popped batches, "
+            "schema-table arity check of the produce reply per version, who-writes tables, ordering by dominators",
+            "Decides: once-only resolution guards; per-record metadata uses no loop-carried state and the right offset/timestamp "
+            "expressions; every popped batch is filed/acknowledged/failed/requeued exactly once on every path; reply unpacking matches "
+            "ProduceResponse_vN for every selectable N; flush/close/stop cover queued and pending batches in the right order; a dying "
+            "sender fails everything and later sends. Liveness ('within bounded time') is not decided."),
 }
 
 NA = {
